@@ -186,7 +186,7 @@ where
     let name = NAMES[w.op as usize % NAMES.len()];
     let m = &c.module;
     // (roomy: the multi-thread entry points need threads x per-thread size)
-    let mut scratch = ScratchOwned::<B>::alloc(1 << 24);
+    let mut scratch = pzv_be::dirty_scratch::<B>(1 << 24);
     let glwe_infos: GLWELayout = c.glwe_infos();
     let mut a_p = encrypt_prepared(c, w.a, w.bootstrap, w.seed, &mut scratch);
     let b_p = encrypt_prepared(c, w.b, w.bootstrap, w.seed ^ 0xB, &mut scratch);
@@ -266,7 +266,7 @@ where
     let sk = &c.sk_glwe;
     let glwe_infos: GLWELayout = c.glwe_infos();
     let enc = EncryptionLayout::new_from_default_sigma(glwe_infos).unwrap();
-    let mut scratch = ScratchOwned::<B>::alloc(1 << 23);
+    let mut scratch = pzv_be::dirty_scratch::<B>(1 << 23);
     let mut xe = Source::new(seed32(w.seed, 1));
     let mut xa = Source::new(seed32(w.seed, 2));
     let mut a_enc: FheUint<Vec<u8>, u32> = FheUint::alloc_from_infos(&glwe_infos);
